@@ -41,6 +41,12 @@ def rule_edgepred(ctx):
         bm = [c for c in s.calls() if c.callee == "util._bipartite_match"]
         need(len(bm) == 1 and len(bm[0].args) == 1, "C05.EDGEPRED", "%s: single call of _bipartite_match(G) not found" % q)
         G = bm[0].args[0]
+        if G.op == "comp" and G.a[0] == "dict":
+            # {est_i: [...] for ...}: a repeated estimate index overwrites its earlier candidates
+            its = G.a[2]
+            grouped_sorted = len(its) == 1 and its[0].op == "call" and call_name(its[0]) == "itertools.groupby" and its[0].a[1] and its[0].a[1][0].op == "call" and call_name(its[0].a[1][0]) == "builtins.sorted"
+            yield ob("C05.EDGEPRED", f, "%s:graph-writes" % q, grouped_sorted, "graph is built by a dict comprehension: unless the pairs are grouped after sorting by estimate index, a repeated estimate index keeps only its last candidate(s) and feasible edges are lost", node=bm[0].node)
+            continue
         need(G.op == "loop", "C05.EDGEPRED", "%s: graph is not built by one loop" % q)
         lid, gname, init, body = G.a
         it = s.loops[lid][1]
@@ -113,10 +119,11 @@ def rule_matchsrc(ctx):
     for q in MATCHERS:
         f = ctx.program.func(q, "C05.MATCHSRC")
         s = ctx.S.get(q)
-        need(len(s.returns) == 1, "C05.MATCHSRC", "%s: single return expected" % q)
-        t = s.returns[0].term
-        good = t.op == "call" and call_name(t) == "builtins.sorted" and len(t.a[1]) == 1 and t.a[1][0].op == "call" and call_name(t.a[1][0]) == ".items" and t.a[1][0].a[1][0].op == "call" and call_name(t.a[1][0].a[1][0]) == "util._bipartite_match"
-        yield ob("C05.MATCHSRC", f, "%s:return" % q, good, "returns sorted(util._bipartite_match(G).items())")
+        need(len(s.returns) >= 1, "C05.MATCHSRC", "%s: no return" % q)
+        for i, r in enumerate(s.returns):
+            t = r.term
+            good = t.op == "call" and call_name(t) == "builtins.sorted" and len(t.a[1]) == 1 and t.a[1][0].op == "call" and call_name(t.a[1][0]) == ".items" and t.a[1][0].a[1][0].op == "call" and call_name(t.a[1][0].a[1][0]) == "util._bipartite_match"
+            yield ob("C05.MATCHSRC", f, "%s:return" % q if i == 0 else "%s:return@%d" % (q, i), good, "returns sorted(util._bipartite_match(G).items())" if good else "a return path yields %s, which does not come from the one-to-one matcher" % tm.show(t, 3), node=r.node)
     # nobody else constructs a pairing
     callers = sorted({f.qual for f in ctx.program.all_funcs() for c in ctx.S.get(f.qual).calls() if c.callee == "util._bipartite_match"})
     yield ob("C05.MATCHSRC", "mir_eval/util.py:1", "callers-of-_bipartite_match", callers == sorted(MATCHERS), "_bipartite_match is called from exactly the four matchers: %s" % callers)
@@ -207,20 +214,25 @@ def rule_windowsides(ctx):
     f = ctx.program.func("util._fast_hit_windows", "C05.WINDOWSIDES")
     s = ctx.S.get(f.qual)
     ss = [c for c in s.calls() if c.callee == "np.searchsorted"]
-    need(len(ss) == 2, "C05.WINDOWSIDES", "_fast_hit_windows: two searchsorted calls expected")
+    need(len(ss) >= 1, "C05.WINDOWSIDES", "_fast_hit_windows: no searchsorted call")
     seen = {}
-    for c in ss:
+    est, win = tm.param("est"), tm.param("window")
+    for k, c in enumerate(ss):
         hay, needle = c.args[0], c.args[1]
         side = dict(c.kw).get("side") or (c.args[2] if len(c.args) > 2 else None)
         sv = side.a[0] if side is not None and side.op == "const" else "left"
         hay_sorted = hay.op == "sub" and hay.a[0].op == "param" and hay.a[0].a[0] == "ref" and hay.a[1].op == "call" and call_name(hay.a[1]) == "np.argsort" and hay.a[1].a[1][0] is hay.a[0]
-        if needle.op == "bin" and needle.a[0] == "-" and needle.a[1].op == "param" and needle.a[1].a[0] == "est" and needle.a[2].op == "param" and needle.a[2].a[0] == "window":
-            seen["lo"] = c
-            yield ob("C05.WINDOWSIDES", f, "util._fast_hit_windows:lower", hay_sorted and sv == "left", "lower bound: searchsorted(sorted ref, est - window, side=%r) - first ref >= est - window" % sv, node=c.node)
-        elif needle.op == "bin" and needle.a[0] == "+" and {x.a[0] for x in (needle.a[1], needle.a[2]) if x.op == "param"} == {"est", "window"}:
-            seen["hi"] = c
-            yield ob("C05.WINDOWSIDES", f, "util._fast_hit_windows:upper", hay_sorted and sv == "right", "upper bound: searchsorted(sorted ref, est + window, side=%r) - first ref > est + window" % sv, node=c.node)
+        lows = [x for x in tm.walk(needle) if x.op == "bin" and x.a[0] == "-" and x.a[1] is est and x.a[2] is win]
+        ups = [x for x in tm.walk(needle) if x.op == "bin" and x.a[0] == "+" and {x.a[1], x.a[2]} == {est, win}]
+        if lows:
+            seen.setdefault("lo", c)
+            yield ob("C05.WINDOWSIDES", f, "util._fast_hit_windows:lower", hay_sorted and sv == "left" and needle is lows[0], "lower bound: searchsorted(sorted ref, est - window, side=%r) - first ref >= est - window" % sv, node=c.node)
+        if ups:
+            seen.setdefault("hi", c)
+            yield ob("C05.WINDOWSIDES", f, "util._fast_hit_windows:upper", hay_sorted and sv == "right" and needle is ups[0], "upper bound: searchsorted(sorted ref, est + window, side=%r) - must be 'right' so that a reference exactly at est + window is inside the closed window" % sv, node=c.node)
     need(len(seen) == 2, "C05.WINDOWSIDES", "window bounds est - window / est + window not found")
+    if seen["lo"] is seen["hi"]:
+        return
     # INDEXSPACE: positions in the sorted array are mapped back through the argsort permutation
     need(len(s.returns) == 1 and s.returns[0].term.op == "tuple" and len(s.returns[0].term.a) == 2, "C05.WINDOWSIDES", "_fast_hit_windows: (hit_ref, hit_est) return expected")
     hr, he = s.returns[0].term.a
@@ -304,6 +316,15 @@ def rule_hkshape(ctx):
     loops = [n for n in f.node.body if isinstance(n, ast.While)]
     forever = bool(loops) and isinstance(loops[-1].test, ast.Constant) and loops[-1].test.value is True
     yield ob("C05.HKSHAPE", f, "util._bipartite_match:phases", forever, "augmentation phases repeat (`while True`) until that return")
+    # (2b) layering: a matched vertex v always extends the layer with its partner: layer.append(matching[v]); pred[matching[v]] = v
+    ext = [m for m in s.by_kind("mutate") if m.how == "setitem" and m.root == "pred" and m.key.op == "sub"]
+    okext = False
+    for m in ext:
+        conds = [(c, p) for c, p in symeval.pc_conds(m.pc)]
+        inner = [(c, p) for c, p in conds if c.op == "cmp" and c.a[0] in ("in", "notin")]
+        extra = [c for c, p in inner if not (c.a[0] == "in" and p and c.a[1] is m.val)]
+        okext = okext or (any(c.a[0] == "in" and p and c.a[1] is m.val for c, p in inner) and not extra)
+    yield ob("C05.HKSHAPE", f, "util._bipartite_match:layer-extension", okext, "while layering, every matched vertex v extends the next layer with matching[v] (pred[matching[v]] = v under `v in matching` and no further condition)")
     # (3) augmentation: every unmatched vertex of the last layer is tried
     rec = ctx.S.get("util._bipartite_match.recurse")
     calls_rec = [c for c in s.calls() if c.fn is not None and c.fn.op == "localfunc" and c.callee.endswith(".recurse")]
@@ -325,5 +346,5 @@ RULES = [
     ("C05.ORIENT", 4, rule_orient),
     ("C05.WINDOWSIDES", 5, rule_windowsides),
     ("C05.MODDIST", 2, rule_moddist),
-    ("C05.HKSHAPE", 5, rule_hkshape),
+    ("C05.HKSHAPE", 6, rule_hkshape),
 ]
